@@ -159,8 +159,11 @@ package dispatch
 //@   at call dynamic:param:notify assert [copies] forall i int :: 0 <= i && i < len(arg0) ==> fresh(arg0[i])
 //@   at call DeleteIfNotModified assert [delete-only-after-success] called("dynamic:param:notify") && ret("dynamic:param:notify") && arg2
 //@   at call DeleteIfNotModified assert [delete-only-resolved] forall i int :: 0 <= i && i < len(arg1) ==> (arg1[i] != nil && fresh(arg1[i]) && resolvedCopy(arg1[i], ret("time.Now")))
+//@   at call DeleteIfNotModified assert [every-resolved-copy-offered-for-deletion] len(arg1) == len(resolvedSlice) && (forall i int :: 0 <= i && i < len(resolvedSlice) ==> arg1[i] == resolvedSlice[i])
+//@   at call dynamic:param:notify assert [resolved-copies-remembered] count("Alert).ResolvedAt") == len(ret("Alerts).List")) && len(resolvedSlice) == counttrue0("Alert).ResolvedAt")
 //@   ensures [no-notify-no-change] !called("dynamic:param:notify") ==> dom(ag.alerts.alerts) == old(dom(ag.alerts.alerts)) && ag.alerts.destroyed == old(ag.alerts.destroyed)
 //@   ensures [failed-notify-no-change] called("dynamic:param:notify") && !ret("dynamic:param:notify") ==> !called("DeleteIfNotModified")
+//@   loop 1 invariant count("Alert).ResolvedAt") == rangeindex + 1 && len(resolvedSlice) == counttrue0("Alert).ResolvedAt")
 //@   loop 1 invariant rangeindex < len(alerts) && fresh(alertsSlice) && fresh(resolvedSlice) && len(alertsSlice) == rangeindex + 1 && len(resolvedSlice) <= rangeindex + 1 && base(alertsSlice) != base(resolvedSlice)
 //@   loop 1 invariant forall i int :: 0 <= i && i < len(alertsSlice) ==> (alertsSlice[i] != nil && fresh(alertsSlice[i]) && (alertsSlice[i].EndsAt == 0 || alertsSlice[i].EndsAt <= ret("time.Now")))
 //@   loop 1 invariant forall i int :: 0 <= i && i < len(resolvedSlice) ==> (resolvedSlice[i] != nil && fresh(resolvedSlice[i]) && resolvedCopy(resolvedSlice[i], ret("time.Now")))
@@ -181,7 +184,25 @@ package dispatch
 //@   at call sync.Map).CompareAndSwap assert [first-alert-before-swap] called("newAggrGroup") && count("aggrGroup).insert") >= 1
 //@   at call Dispatcher).runAG assert [run-only-published] (called("LoadOrStore") && !ret1("LoadOrStore")) || (called("CompareAndSwap") && ret("CompareAndSwap"))
 //@   ensures [no-silent-loss] count("aggrGroup).insert") >= 1 || called("errors.New")
+//@   ensures [inserted-or-published-or-reported] counttrue0("aggrGroup).insert") >= 1 || (counttrue0("CompareAndSwap") + count("LoadOrStore") - counttrue1("LoadOrStore") == 1) || called("Logger).Error")
+//@   at call errors.New assert [refused-only-at-the-limit] ret("MaxNumberOfAggregationGroups") > 0 && current >= ret("MaxNumberOfAggregationGroups")
+//@   at call newAggrGroup assert [existing-group-tried-first] ret1("sync.Map).Load") ==> called("aggrGroup).insert") && !ret("aggrGroup).insert")
+//@   at call newAggrGroup assert [group-limit-respected] ret("MaxNumberOfAggregationGroups") <= 0 || current < ret("MaxNumberOfAggregationGroups")
+//@   at call sync.Map).CompareAndSwap assert [swap-only-a-group-that-was-seen] loaded
+//@   at call sync.Map).CompareAndSwap assert [swap-under-the-group-key] unbox(arg1, model.Fingerprint) == ret("LabelSet).Fingerprint")
+//@   at call sync.Map).CompareAndSwap assert [swap-in-the-new-group] unbox(arg3, *aggrGroup) == ret("newAggrGroup")
+//@   at call sync.Map).CompareAndSwap assert [reload-between-swaps] count("CompareAndSwap") <= counttrue1("LoadOrStore")
+//@   at call sync.Map).LoadOrStore assert [store-only-when-nothing-was-seen] !loaded && unbox(arg1, model.Fingerprint) == ret("LabelSet).Fingerprint") && unbox(arg2, *aggrGroup) == ret("newAggrGroup")
+//@   at call aggrGroup).resetTimer assert [immediate-flush-only-for-old-alerts] arg1 == 0 && alert.StartsAt + ret("newAggrGroup").opts.GroupWait < first("time.Now")
+//@   ensures [replaced-group-is-cancelled] called("CompareAndSwap") && ret("CompareAndSwap") ==> called("dynamic:field:cancel")
+//@   ensures [published-at-most-once] counttrue0("CompareAndSwap") + count("LoadOrStore") - counttrue1("LoadOrStore") <= 1
+//@   ensures [stored-group-is-counted] count("Int32).Add") == count("LoadOrStore") - counttrue1("LoadOrStore") && count("Int64).Add") == count("LoadOrStore") - counttrue1("LoadOrStore")
+//@   ensures [old-alert-flushes-at-once] (counttrue0("CompareAndSwap") + count("LoadOrStore") - counttrue1("LoadOrStore") == 1) && alert.StartsAt + ret("newAggrGroup").opts.GroupWait < first("time.Now") ==> called("aggrGroup).resetTimer")
+//@   ensures [published-group-is-started-when-running] (counttrue0("CompareAndSwap") + count("LoadOrStore") - counttrue1("LoadOrStore") == 1) && ret("Int32).Load") == DispatcherStateRunning ==> called("Dispatcher).runAG")
 //@   loop 1 invariant called("newAggrGroup") && count("aggrGroup).insert") >= 1
+//@   loop 1 invariant counttrue0("CompareAndSwap") == 0 && count("LoadOrStore") == counttrue1("LoadOrStore") && (called("CompareAndSwap") ==> !ret("CompareAndSwap")) && count("Int32).Add") == 0 && count("Int64).Add") == 0 && !called("aggrGroup).resetTimer") && !called("Dispatcher).runAG")
+//@   loop 1 invariant (loaded ==> count("CompareAndSwap") <= counttrue1("LoadOrStore")) && (!loaded ==> count("CompareAndSwap") <= counttrue1("LoadOrStore") + 1) && count("CompareAndSwap") <= counttrue1("LoadOrStore") + 1
+//@   loop 1 invariant called("time.Now") && called("LabelSet).Fingerprint") && counttrue0("aggrGroup).insert") >= 0
 //@   noeffect newAggrGroup aggrGroup).insert runAG resetTimer cancel Route).Key MaxNumberOfAggregationGroups
 
 //@ func (*Dispatcher).doMaintenance$1
@@ -191,6 +212,10 @@ package dispatch
 //@   at call sync.Map).CompareAndDelete assert [delete-only-destroyed] called("aggrGroup).destroyed") && ret("aggrGroup).destroyed")
 //@   at call DeleteByGroupKey assert [uncount-only-deleted] called("CompareAndDelete") && ret("CompareAndDelete")
 //@   at call atomic.Int64).Add assert [uncount-only-deleted2] called("CompareAndDelete") && ret("CompareAndDelete")
+//@   at call sync.Map).CompareAndDelete assert [stopped-before-removal] called("aggrGroup).stop") && unbox(arg2, *aggrGroup) == unbox(el, *aggrGroup)
+//@   ensures [destroyed-group-is-removed] called("aggrGroup).destroyed") && ret("aggrGroup).destroyed") ==> called("aggrGroup).stop") && called("CompareAndDelete")
+//@   ensures [removed-group-is-uncounted] called("CompareAndDelete") && ret("CompareAndDelete") ==> called("DeleteByGroupKey") && count("Int64).Add") == 1 && count("Int32).Add") == 1
+//@   ensures [sweep-goes-on] result
 //@   noeffect aggrGroup).destroyed aggrGroup).stop DeleteByGroupKey fingerprint GroupKey
 
 // ---- C04 / C05 / C06: what a flush is given. Each tick of the group's timer: the pipeline context carries the tick
@@ -209,5 +234,16 @@ package dispatch
 //@   at call notify.WithGroupKey assert [key-of-this-group] arg1 == ret("aggrGroup).GroupKey")
 //@   at call aggrGroup).resetTimer assert [rearm-to-group-interval] arg1 == cell(ag).opts.GroupInterval
 //@   at call aggrGroup).resetTimer assert [one-rearm-per-flush] count("aggrGroup).resetTimer") == count("aggrGroup).flush")
+//@   at call aggrGroup).flush assert [context-carries-the-group] count("notify.WithGroupKey") == count("aggrGroup).flush") + 1 && count("notify.WithGroupLabels") == count("aggrGroup).flush") + 1
+//@             && count("notify.WithReceiverName") == count("aggrGroup).flush") + 1 && count("notify.WithRepeatInterval") == count("aggrGroup).flush") + 1
+//@             && count("notify.WithMuteTimeIntervals") == count("aggrGroup).flush") + 1 && count("notify.WithActiveTimeIntervals") == count("aggrGroup).flush") + 1
+//@             && count("marker.WithContext") == count("aggrGroup).flush") + 1
+//@   at call notify.WithMuteTimeIntervals assert [mute-intervals-of-the-route] arg1 == cell(ag).opts.MuteTimeIntervals
+//@   at call notify.WithActiveTimeIntervals assert [active-intervals-of-the-route] arg1 == cell(ag).opts.ActiveTimeIntervals
+//@   at call notify.WithGroupLabels assert [labels-of-the-group] arg1 == cell(ag).labels
+//@   ensures [ends-only-when-destroyed-or-cancelled] ret("select") == 1 || (called("aggrGroup).destroyed") && ret("aggrGroup).destroyed"))
 //@   at call aggrGroup).flush assert [rearmed-before-flush] count("aggrGroup).resetTimer") == count("aggrGroup).flush") + 1 && count("notify.WithNow") == count("aggrGroup).flush") + 1
+//@   loop 1 invariant count("notify.WithGroupKey") == count("aggrGroup).flush") && count("notify.WithGroupLabels") == count("aggrGroup).flush") && count("notify.WithReceiverName") == count("aggrGroup).flush")
+//@             && count("notify.WithRepeatInterval") == count("aggrGroup).flush") && count("notify.WithMuteTimeIntervals") == count("aggrGroup).flush") && count("notify.WithActiveTimeIntervals") == count("aggrGroup).flush")
+//@             && count("marker.WithContext") == count("aggrGroup).flush")
 //@   loop 1 invariant count("aggrGroup).resetTimer") == count("aggrGroup).flush") && count("notify.WithNow") == count("aggrGroup).flush")
